@@ -616,6 +616,7 @@ type loopCtx struct {
 	v0     *Term
 	pos    token.Pos
 	autoInv []func(st *State) (*Term, string)
+	idxNow *Term // hidden index of a range loop at the point an invariant is evaluated (spec name: idx)
 }
 
 // havocForLoop havocs the modification set of the loop body in st (in place).
@@ -663,7 +664,7 @@ func (vc *VC) havocForLoop(body ast.Node, extra []ast.Node, st *State, hint stri
 	}
 	if len(mi.calls) > 0 {
 		// allocation counter / trace may advance
-		for _, name := range []string{"$nextArr", "$TraceLen", "$Trace"} {
+		for _, name := range []string{"$nextArr", "$TraceLen", "$Trace", "$TraceArgs"} {
 			if h, ok := st.heaps[name]; ok {
 				nh := vc.fresh(name, h.Sort)
 				if name == "$nextArr" || name == "$TraceLen" {
@@ -692,7 +693,10 @@ var epochCounter = 0
 
 func (vc *VC) havocAll(st *State, why string) {
 	for name, h := range st.heaps {
-		if name == "$nextArr" || name == "$TraceLen" {
+		if name == "$Trace" || name == "$TraceArgs" || name == "$TraceLen" {
+			continue // the ghost trace of this function's own calls is only ever appended to
+		}
+		if name == "$nextArr" {
 			nh := vc.fresh(name, h.Sort)
 			vc.assume(Le(h, nh))
 			st.heaps[name] = nh
@@ -702,6 +706,9 @@ func (vc *VC) havocAll(st *State, why string) {
 	}
 	// heaps not yet materialised are unknown too: materialise all known names
 	for name, s := range vc.heapSorts {
+		if strings.HasPrefix(name, "$Trace") {
+			continue
+		}
 		if _, ok := st.heaps[name]; !ok {
 			st.heaps[name] = vc.fresh(name, s)
 		}
@@ -746,7 +753,7 @@ func (vc *VC) heapWriteSet(body ast.Node, extra []ast.Node, mi *modInfo) ([]type
 		}
 	}
 	visit := func(n ast.Node) {
-		ast.Inspect(n, func(x ast.Node) bool {
+		inspectNonExiting(n, func(x ast.Node) bool {
 			switch s := x.(type) {
 			case *ast.FuncLit:
 				all = true
@@ -792,6 +799,9 @@ func (vc *VC) heapWriteSet(body ast.Node, extra []ast.Node, mi *modInfo) ([]type
 func (vc *VC) inLoopInvariantCheck(lc *loopCtx, st *State, kind string) {
 	if lc.spec != nil {
 		env := vc.specEnvAt(st, lc.pos)
+		if lc.idxNow != nil {
+			env.names["idx"] = intVal(lc.idxNow)
+		}
 		for i, inv := range lc.spec.Invariants {
 			t := vc.specBool(env, inv.Expr)
 			tag := inv.Tag
@@ -822,6 +832,9 @@ func (vc *VC) assumeAt(st *State, t *Term) {
 func (vc *VC) loopAssumeInvariants(lc *loopCtx, st *State) {
 	if lc.spec != nil {
 		env := vc.specEnvAt(st, lc.pos)
+		if lc.idxNow != nil {
+			env.names["idx"] = intVal(lc.idxNow)
+		}
 		for _, inv := range lc.spec.Invariants {
 			vc.assumeAt(st, vc.specBool(env, inv.Expr))
 		}
@@ -1010,6 +1023,7 @@ func (vc *VC) execRange(x *ast.RangeStmt, st *State, label string) Flow {
 	if intKey {
 		setKey(pre, idx0)
 	}
+	lc.idxNow = idx0
 	vc.inLoopInvariantCheck(lc, pre, "inv.init")
 	head := st.clone()
 	vc.havocForLoop(x.Body, nil, head, "range loop")
@@ -1020,6 +1034,7 @@ func (vc *VC) execRange(x *ast.RangeStmt, st *State, label string) Flow {
 		if intKey {
 			setKey(head, idx)
 		}
+		lc.idxNow = idx
 	}
 	vc.loopAssumeInvariants(lc, head)
 	headSnap := head.clone()
@@ -1107,6 +1122,9 @@ func (vc *VC) execRange(x *ast.RangeStmt, st *State, label string) Flow {
 	if back != nil {
 		if intKey && idx != nil {
 			setKey(back, Add(idx, One))
+		}
+		if idx != nil {
+			lc.idxNow = Add(idx, One)
 		}
 		vc.stepEnsures(lc, back, headSnap)
 		vc.inLoopInvariantCheck(lc, back, "inv.keep")
